@@ -10,13 +10,14 @@ VERIF = pathlib.Path(__file__).resolve().parent.parent
 sys.path.insert(0, str(VERIF))
 props = [json.loads(l) for l in open(VERIF / "properties.jsonl")]
 checks, na = [], []
+ALLOW = set((VERIF / "tools" / "registered.txt").read_text().split())
 for p in props:
     pid = p["id"]
     try:
         mod = importlib.import_module(f"vf.checks.{pid.lower()}")
     except ModuleNotFoundError:
         mod = None
-    if mod is None or not getattr(mod, "REGISTER", False):
+    if mod is None or not getattr(mod, "REGISTER", False) or pid not in ALLOW:
         na.append({"property_id": pid, "reason": getattr(mod, "NA_REASON", None) or
                    "check under construction (runtime monitor designed in DESIGN.md section 4, not yet registered)"})
         continue
